@@ -151,8 +151,9 @@ def window_universe(w, margin=2, flavours=FLAVOURS, maps=True, vary=True, specia
         tw = w.tile_size[0]
         u['layerseqs'] = [('fine',)]
         u['maplevels'] = list(range(w.levels))
-        u['mapoffs'] = [-tw, -tw // 2, 0, tw // 2, tw, 3 * tw]
-        u['mapsizes'] = [tw // 2, tw, 2 * tw, 3 * tw, 4 * tw, 4 * tw + 2, 5 * tw]
+        u['mapoffs'] = [-tw, -tw // 2, 0, tw // 2, 3 * tw]
+        u['mapsizes'] = [tw // 2, tw, 2 * tw, 3 * tw, 4 * tw, 4 * tw + 2, 5 * tw] if margin > 2 else \
+            [tw // 2, 2 * tw, 3 * tw, 4 * tw, 4 * tw + 2, 5 * tw]
     return u
 
 
@@ -419,7 +420,7 @@ def worlds(tier):
               tile_limit=6, pixel_limit=256),
         World('ll-cov', origin='ll', bbox=(0, 0, 640, 400), res=(80, 40, 25), cov=(10, 10, 330, 170)),
         World('gm4', global_grid='GLOBAL_MERCATOR', levels=4),
-        World('gg4', global_grid='GLOBAL_GEODETIC', levels=4),
+        World('gg3' if tier != 'thorough' else 'gg4', global_grid='GLOBAL_GEODETIC', levels=3 if tier != 'thorough' else 4),
     ]
     if tier == 'thorough':
         ws += [
@@ -448,7 +449,7 @@ def global_worlds(tier):
 
 def all_worlds():
     d = {}
-    for w in worlds('thorough') + [coarse_world()] + global_worlds('thorough'):
+    for w in worlds('quick') + worlds('thorough') + [coarse_world()] + global_worlds('thorough'):
         d[w.name] = w
     return d
 
@@ -798,7 +799,7 @@ def confront_model_violation(ctx, w, app, r, precheck):
 
 def small_universe(w, thorough):
     small = window_universe(w, margin=1, special=False, vary=False,
-                            flavours=FLAVOURS if thorough else ['tms', 'tiles_nw', 'wmts_kvp', 'kml'])
+                            flavours=FLAVOURS if thorough else ['tms', 'wmts_kvp'])
     if small.get('mapsizes'):
         tw = w.tile_size[0]
         small['mapoffs'] = [-tw // 2, 0, tw]
@@ -821,15 +822,17 @@ def run(ctx):
         for w in lattice:
             u = window_universe(w, margin=3 if thorough else 2)
             jobs[w.name, 'mc'] = pool.submit(check_model, ctx, w.name, w, u, 1, table=True)
+        jobs[cw.name, 'as-is'] = pool.submit(check_model, ctx, cw.name + '-as-is', cw, coarse_universe(cw), 1,
+                                             precheck=False, table=True, workers=1)   # one worker: same counterexample every run
+        jobs[cw.name, 'precheck'] = pool.submit(check_model, ctx, cw.name + '-precheck', cw, coarse_universe(cw), 1,
+                                                precheck=True, table=True)
+        for w in lattice:
+            jobs[w.name, 'sim'] = pool.submit(simulate, ctx, w, window_universe(w, margin=1, special=False, vary=True),
+                                              40 if thorough else 10, 60, 12)
+        for w in lattice:
             if thorough or w.name in ('ll-dims', 'ul-meta'):
                 jobs[w.name, 'pairs'] = pool.submit(check_model, ctx, w.name + '-pairs', w, small_universe(w, thorough), 2,
                                                     invariants=INVARIANTS)
-            jobs[w.name, 'sim'] = pool.submit(simulate, ctx, w, window_universe(w, margin=1, special=False, vary=True),
-                                              40 if thorough else 10, 60, 12)
-        jobs[cw.name, 'as-is'] = pool.submit(check_model, ctx, cw.name + '-as-is', cw, coarse_universe(cw), 1,
-                                             precheck=False, table=True)
-        jobs[cw.name, 'precheck'] = pool.submit(check_model, ctx, cw.name + '-precheck', cw, coarse_universe(cw), 1,
-                                                precheck=True, table=True)
         tjobs = {}
 
         # ---- phase 2: the real application, world by world ------------------------------------------------
